@@ -339,7 +339,14 @@ def list_method(eng, l, name, args, kw, line):
             m = eng.list_len(other)
             orow = eng.list_data(other)[1][other.ref]
             j = z3.Const('j!ext', I)
-            row = eng.def_array([j], z3.If(j >= n, orow[j - n], da[l.ref][j]))
+            # only the cells of the new list are defined (guarded quantifier: the finite counter-model search can expand it)
+            row = eng.run.fresh('ext', da[l.ref].sort())
+            eng.run.assume(z3.ForAll([j], z3.Implies(z3.And(0 <= j, j < n + m),
+                                                     row[j] == z3.If(j >= n, orow[j - n], da[l.ref][j]))), silent=True)
+            # implied by the definition of row (source index -> new index), stated with a trigger on the appended row so
+            # that "every element of the other list is in the result" is found by instantiation (j + n is no pattern)
+            eng.run.assume(z3.ForAll([j], z3.Implies(z3.And(0 <= j, j < m), row[j + n] == orow[j]), patterns=[orow[j]]),
+                           silent=True)
             eng.heap.set(nm, z3.Store(da, l.ref, row))
             eng.heap.set('L.len', z3.Store(ln, l.ref, n + m))
             return None
